@@ -85,20 +85,23 @@ def mulw(w):
 # /repo d3d9d9d (partial final group touched a full group: over-read / over-write); validated on a copy
 # with that commit reverted (w03, w08 fail) and on stride / size / width-0 breakages (w00, w01, w03).
 # *_OK: widths seen `ok` on the repaired tree; the others stay wip until they have been seen to close.
-UNPACK32_OK = {0, 1, 3, 7, 8, 13, 32}
-PACK32_OK = {0, 1, 3, 7, 8, 32}
-UNPACK32_QUICK = {0, 1, 3, 8, 32}
-PACK32_QUICK = {0, 1, 3, 8}
+UNPACK32_OK = set(range(0, 33))                       # every width closed (2.8 .. 190 s under load)
+PACK32_OK = set(range(0, 25)) | {28, 32}              # 25,26,27,29,30,31: SAT and cadical time out at 900 s
+UNPACK32_QUICK = {0, 1, 2, 3, 4, 8, 16, 32}
+PACK32_QUICK = {0, 1, 2, 3, 4, 5, 8, 16}
 for w in range(0, 33):
     d = ['CQV_BW_LO=%d' % w, 'CQV_BW_HI=%d' % w, 'CQV_MULW(x)=' + mulw(w)]
     GL = dict(replace=['carquet_bitunpack8_32', 'carquet_bitpack8_32'], min_loop_obligations=2, defines=d,
               backend=['sat', 'cadical'], est_s=90)
     JOBS.append(dict(name='c08_bitunpack_32_w%02d' % w, props=['C08', 'C11'], entry='h_bitunpack_32', enforce='carquet_bitunpack_32',
                      replayer=RP_U, tier='quick' if w in UNPACK32_QUICK else 'thorough', timeout=240 if w in UNPACK32_QUICK else 900,
-                     wip=w not in UNPACK32_OK, note='' if w in UNPACK32_OK else 'not yet seen to close on the repaired tree', **GL, **G))
+                     wip=w not in UNPACK32_OK, **GL, **G))
     JOBS.append(dict(name='c11_bitpack_32_w%02d' % w, props=['C11', 'C08'], entry='h_bitpack_32', enforce='carquet_bitpack_32',
-                     replayer=RP_P, tier='quick' if w in PACK32_QUICK else 'thorough', timeout=240 if w in PACK32_QUICK else 900,
-                     wip=w not in PACK32_OK, note='' if w in PACK32_OK else 'not yet seen to close on the repaired tree', **GL, **G))
+                     replayer=RP_P, tier='quick' if w in PACK32_QUICK else 'thorough', timeout=240 if w in PACK32_QUICK else 1800,
+                     wip=w not in PACK32_OK,
+                     note='' if w in PACK32_OK else 'UNDECIDED: no answer within 900 s from sat or cadical on the repaired tree (no failure either); '
+                          'safety and layout of this width are covered by c11_seq_roundtrip_w%02d (count <= 15) and the 8-group jobs' % w,
+                     **GL, **G))
 
 # ---- C11/C12 sequence level: real pack_32 -> unpack_32 and the spec encoder/decoder over the whole stream,
 # every count 0..15 (no / one whole group + every partial group size), one job per width; bounded in count only
